@@ -41,7 +41,7 @@ class CommonJSONDecoder(json.JSONDecoder):
         if 'type{time}' in obj:
             try:
                 return datetime.datetime \
-                    .strptime(obj['type{time}'], TIME_P_FORMAT) \
+                    .strptime(obj['type{time}'], TIME_P_FORMAT + ('.%f' if '.' in obj['type{time}'] else '')) \
                     .time()
             except ValueError:
                 pass
@@ -49,7 +49,7 @@ class CommonJSONDecoder(json.JSONDecoder):
             try:
                 (isoformat, tzofs, tzname) = obj['type{datetime}']
                 parsed = datetime.datetime \
-                    .strptime(isoformat, DATETIME_P_FORMAT)
+                    .strptime(isoformat, DATETIME_P_FORMAT + ('.%f' if '.' in isoformat else ''))
                 if tzname is not None:
                     return datetime.datetime \
                         .combine(parsed.date(), parsed.time(),
@@ -94,10 +94,10 @@ class CommonJSONEncoder(json.JSONEncoder):
         if isinstance(obj, decimal.Decimal):
             return {'type{decimal}': str(obj)}
         elif isinstance(obj, datetime.time):
-            return {'type{time}': obj.strftime(TIME_F_FORMAT)}
+            return {'type{time}': obj.strftime(TIME_F_FORMAT + ('.%f' if obj.microsecond else ''))}
         elif isinstance(obj, datetime.datetime):
             return {'type{datetime}':
-                    (obj.strftime(DATETIME_F_FORMAT),
+                    (obj.strftime(DATETIME_F_FORMAT + ('.%f' if obj.microsecond else '')),
                      int(obj.utcoffset().total_seconds()) if obj.utcoffset() is not None else None,
                      obj.tzname())}
         elif isinstance(obj, datetime.date):
